@@ -658,8 +658,9 @@ pub fn check_main(tier: &str) -> i32 {
         loghash: u64,
         samples: Vec<Value>,
         opkinds: BTreeMap<String, u64>,
+        sim_ns: u64,
     }
-    let tot = Mutex::new(Tot { builds: 0, probes: BTreeMap::new(), viol: BTreeMap::new(), known: BTreeMap::new(), digests: vec![], states: vec![], loghash: 0, samples: vec![], opkinds: BTreeMap::new() });
+    let tot = Mutex::new(Tot { builds: 0, probes: BTreeMap::new(), viol: BTreeMap::new(), known: BTreeMap::new(), digests: vec![], states: vec![], loghash: 0, samples: vec![], opkinds: BTreeMap::new(), sim_ns: 0 });
     std::thread::scope(|s| {
         for o in 0..w {
             let tot = &tot;
@@ -677,6 +678,9 @@ pub fn check_main(tier: &str) -> i32 {
                         *t.probes.entry(k).or_insert(0) += v;
                     }
                     for op in &sc.ops {
+                        if let Op::Tick(d) = op {
+                            t.sim_ns = t.sim_ns.saturating_add(*d);
+                        }
                         let k = format!("{:?}", op);
                         let k = k.split('(').next().unwrap_or("").to_string();
                         *t.opkinds.entry(k).or_insert(0) += 1;
@@ -749,6 +753,7 @@ pub fn check_main(tier: &str) -> i32 {
     extra.insert("build_steps_executed_as_child_processes".into(), json!(t.builds * 2));
     extra.insert("runs_per_hour".into(), json!((count as f64 / wall * 3600.0) as u64));
     extra.insert("operations_by_kind".into(), json!(t.opkinds));
+    extra.insert("simulated_file_system_time_covered_ns".into(), json!(t.sim_ns));
     extra.insert("probes_and_faults_fired".into(), json!(t.probes));
     extra.insert("distinct_states".into(), json!({"count": t.states.len(), "measure": "distinct (grammar variant, header, lexer variant, parser options, lexer options, flow, order of grammar/parser-output mtimes, order of lexer/lexer-output mtimes, build outcome, fault kind) after a build"}));
     extra.insert("event_log_hash".into(), json!(format!("{:016x}", t.loghash)));
